@@ -238,3 +238,26 @@ Definition nl_str2int (base : Z) (s : list Z) : option Z :=
       end
   end.
 Definition nl_str2int10 (s : list Z) : option Z := nl_str2int 10 s.
+
+(* ================================================================================================
+   the ".0" rules (texts as lists of character codes)
+   ================================================================================================ *)
+Definition is_int_char (c : Z) : bool := ((48 <=? c) && (c <=? 57)) || (c =? 45).
+(* lobject.c tostringbuff:  if (buff[strspn(buff, "-0123456789")] == '\0') add ".0" *)
+Definition lua_add_dot0 (s : list Z) : list Z := if forallb is_int_char s then s ++ [46; 48] else s.
+(* cbuiltins.lua print, float branch: scan for a char outside [0-9-]; append ".0" when none was found,
+   the text is non-empty and two more bytes fit the 48-byte buffer *)
+Definition PRINT_BUF : Z := 48.
+Definition nl_print_dot0 (s : list Z) : list Z :=
+  let fractnum := existsb (fun c => negb (is_int_char c)) s in
+  if negb fractnum && (0 <? Z.of_nat (List.length s)) && (Z.of_nat (List.length s) + 2 <? PRINT_BUF) then s ++ [46; 48] else s.
+(* bn.todecsci with forcefract:  if s:find('^-?[0-9]+$') then s = s .. '.0' *)
+Definition is_digit_char (c : Z) : bool := (48 <=? c) && (c <=? 57).
+Definition int_like (s : list Z) : bool :=
+  match s with
+  | [] => false
+  | c :: r =>
+      if c =? 45 then negb (match r with [] => true | _ => false end) && forallb is_digit_char r
+      else forallb is_digit_char s
+  end.
+Definition nl_force_fract (s : list Z) : list Z := if int_like s then s ++ [46; 48] else s.
